@@ -1344,6 +1344,15 @@ fn check_epc(case: &Case, obs: &mut Obs, key: &str) {
     // path, by a Newton iteration that stops one step earlier or later (solver tolerance).
     let xs: Vec<f64> = case.state.x.clone();
     let stiff = assoc_stiffness(spec, l.t, l.ntot / l.vol, &xs, case.state.f_eta * spec.opts.max_eta);
+    if spec.has_association() {
+        // exp(eps_AB/T) overflows or the Newton solver of one side needs one iteration more than
+        // max_iter (reported as NaN): a failure to return a value, not an altered value
+        let finite = |p: &Props| [p.a, p.p, p.s, p.dpdv, p.dpdt].iter().all(|q| q.0.is_finite() && q.1.is_finite());
+        if !stiff.is_finite() || stiff > 1e12 || !finite(&l) || !finite(&r) {
+            obs.discard("association strength overflows / cross-association solver not converged (non-finite value or scale)");
+            return;
+        }
+    }
     let tol = if spec.has_association() {
         let t = with_stiffness(TOL_SAME, stiff);
         if spec.n_assoc_components() > 1 { Tol { rel: t.rel.max(TOL_ASSOC.rel), round: t.round } } else { t }
